@@ -13,6 +13,7 @@ import (
 	"math/rand"
 	"strings"
 	"sync"
+	"sync/atomic"
 	"testing"
 	"time"
 
@@ -146,6 +147,7 @@ func vfC07Table(run *vfkit.Run, cs vfC07Case) {
 	histDone := make(chan struct{})
 	defer close(histDone)
 	var wg sync.WaitGroup
+	var regBlocked int32
 	var pendingResp sync.WaitGroup
 	panicCh := make(chan string, 64)
 	for w := 0; w < cs.Workers; w++ {
@@ -178,7 +180,16 @@ func vfC07Table(run *vfkit.Run, cs vfC07Case) {
 					regs = append(regs, rg)
 					rmu.Unlock()
 					call := vfTick()
-					rg.ch = router.NewIQResultRoute(ctx, id)
+					// registering a request takes the table's lock for a moment; it must not have to wait for some other
+					// request's response to find its reader (a SendIQ that blocks behind an unread response)
+					got := make(chan chan stanza.IQ, 1)
+					go func() { got <- router.NewIQResultRoute(ctx, id) }()
+					select {
+					case rg.ch = <-got:
+					case <-time.After(20 * time.Second):
+						atomic.StoreInt32(&regBlocked, 1)
+						return
+					}
 					ret := vfTick()
 					rmu.Lock()
 					recs = append(recs, vfIQRec{Worker: w, Op: vfIQOp{Kind: "reg", Id: id, Reg: rg.n}, Call: call, Ret: ret})
@@ -262,6 +273,16 @@ func vfC07Table(run *vfkit.Run, cs vfC07Case) {
 		}(w)
 	}
 	wg.Wait()
+	if atomic.LoadInt32(&regBlocked) == 1 {
+		// release whatever is stuck, then report
+		rmu.Lock()
+		for _, rg := range regs {
+			rg.cancel()
+		}
+		rmu.Unlock()
+		run.Violation("C07/registration-blocked-behind-unread-response", "NewIQResultRoute (the first thing SendIQ does) did not return within 20 s: the pending-request table stayed locked while a response waited for a caller that is not reading", cs)
+		return
+	}
 	select {
 	case p := <-panicCh:
 		run.Violation("C07/panic-in-route", "route panicked: "+p, cs)
